@@ -1,14 +1,14 @@
-import LiquidVerif.Lemmas.BoolParse
+import LiquidVerif.Lemmas.CondParse
 import LiquidVerif.Lemmas.Cond
 /-!
 # C12 — conditions follow Liquid truthiness and operator rules
 
 Property theorems about `Model/Value.lean`, `Model/Cond.lean` (is_truthy, _eq, _lt, _contains, the tags) and
-`Model/BoolParse.lean` (the Pratt parser of `logical.py`, its precedence tables regenerated into
+`Model/CondParse.lean` (the Pratt parser of `logical.py`, its precedence tables regenerated into
 `Gen/C12Tables.lean` on every run).  Helper lemmas live in `Lemmas/`.
 -/
 namespace LiquidVerif.C12
-open LiquidVerif.Value LiquidVerif.Cond LiquidVerif.BoolParse
+open LiquidVerif.Value LiquidVerif.Cond LiquidVerif.CondParse
 open LiquidVerif.Gen
 
 /-! ## "only false and nil (including undefined values) are falsy" -/
